@@ -29,8 +29,8 @@ ASSUMPTIONS = ["bounded liveness: once the last job is enqueued and no fault is 
                "no pre-emption inside semantiva.core / pipeline execution (a job run is one scheduling step)"]
 REQUIRED_PROBES = ["failing_job", "slow_job", "multi_worker", "late_worker", "batch_ge_10", "fire_and_forget_job_mixed_in", "two_failing_jobs"]
 CONFIG = {
-    "quick": {"runs": 1500, "budget_s": 170, "timeout_s": 120, "per_fork": 4},
-    "thorough": {"runs": 120000, "budget_s": 1600, "timeout_s": 180, "per_fork": 6},
+    "quick": {"runs": 2500, "budget_s": 240, "timeout_s": 120, "per_fork": 4},
+    "thorough": {"runs": 150000, "budget_s": 1600, "timeout_s": 180, "per_fork": 6},
     "shrink_s": 50.0,
 }
 # The liveness clauses presuppose a fair scheduler; PCT is strict-priority (unfair by design: on this virtual-time
